@@ -33,7 +33,7 @@ func doSelftest() int {
 		auto bool
 	}
 	variants := []variant{{"C05", false}, {"C06", false}, {"C07", false}, {"C19", false}, {"C20", false},
-		{"C06", true}, {"C07", true}, {"C19", true}, {"C20", true}} // auto: the auto-yield workers
+		{"C05", true}, {"C06", true}, {"C07", true}, {"C19", true}, {"C20", true}} // auto: the auto-yield workers
 	for _, vr := range variants {
 		p := vr.prop
 		cfg := cfgs[p]
